@@ -23,6 +23,8 @@ RULE = ('Valid keys: scalar d drawn from boundary-biased classes (uniform, 1..10
         '>= p (incl. p + x of a real point), uncompressed encodings / tuples (x, y) off the curve (y damaged, '
         'coordinates swapped, (0,0), x + p). A non-key case fails when an object comes back AND .address() '
         'returns. Non-trivial = every non-key case, and every valid case whose scalar class is not "uniform" '
+        '[address histories: 2..6 fully specified address() / network_change() / address_obj requests on ONE object, each '
+        'compared with the standard encoding for its own arguments and the current network] '
         'or whose (network, script type) is not (bitcoin, p2pkh); distinct by (kind, key material, form, class, '
         'network, compressed, order).')
 ASSUMPTIONS = ['ref/ec.py, ref/base58.py, ref/bech32.py, ref/address.py are correct (self-tested against BIP173/350, '
